@@ -201,7 +201,8 @@ class WireModel:
         if m is None or not m.alive:
             return Expect("unjudged", "association closed")
         src, raw = a.src, a.raw
-        if src not in m.far_known and src[0] == m.viewer.ctrl_addr[0]:
+        # (whatever a datagram claimed as its destination, the viewer's own socket is never a simulator)
+        if src == m.viewer.addr or (src not in m.far_known and src[0] == m.viewer.ctrl_addr[0]):
             # must be SOCKS5-UDP framed
             try:
                 if len(raw) < 4:
@@ -214,7 +215,8 @@ class WireModel:
                 far, payload = L.socks_unwrap(raw)
             except Exception:
                 return Expect("discard", "bad socks framing")
-            m.far_known.add(far)
+            if far != m.viewer.addr:
+                m.far_known.add(far)
             direction = "out"
         elif src in m.far_known:
             far, payload, direction = src, raw, "in"
@@ -634,7 +636,10 @@ class Driver:
             body = G.chat_from_viewer_body(spec.agent_id, spec.session_id, st.get("text", "hello"),
                                            st.get("channel", 0))
         elif name == "ChatFromSimulator":
-            body = G.chat_from_simulator_body(st.get("text", "hello"), chat_type=st.get("chat_type", 1))
+            text = bytes.fromhex(st["text_hex"]) if st.get("text_hex") is not None else st.get("text", "hello")
+            if st.get("text_hex") is not None:
+                self.res.probe("chat_text_not_utf8")
+            body = G.chat_from_simulator_body(text, chat_type=st.get("chat_type", 1))
         else:
             tmpl = G.templates().get_template_by_name(name)
             body = tmpl.freq_num_bytes + extra + G.gen_blocks(rng, tmpl, tricky_text=st.get("tricky", False),
@@ -855,6 +860,9 @@ class Driver:
             net.send(v.addr, v.proxy_udp, b"\x00\x00\x01" + L.socks_wrap(far, valid)[3:], fate)
         elif kind == "socks_atyp":
             net.send(v.addr, v.proxy_udp, b"\x00\x00\x00\x04" + L.socks_wrap(far, valid)[4:], fate)
+        elif kind == "socks_self_addressed":
+            # well-formed SOCKS datagram whose destination is the viewer's own UDP address
+            v.send_payload(v.addr, valid, fate)
         elif kind == "socks_short":
             net.send(v.addr, v.proxy_udp, bytes(rng.randrange(1, 256) for _ in range(rng.randint(1, 3))), fate)
         elif kind == "nonsocks":
@@ -889,6 +897,6 @@ class Driver:
             raise ValueError(kind)
 
 
-GARBAGE_KINDS = ["unknown_host", "socks_rsv", "socks_frag", "socks_atyp", "socks_short", "nonsocks",
+GARBAGE_KINDS = ["unknown_host", "socks_rsv", "socks_frag", "socks_atyp", "socks_short", "socks_self_addressed", "nonsocks",
                  "short_header_out", "short_header_in", "unknown_msg_out", "unknown_msg_in", "banned_in",
                  "no_circuit_out", "sim_unsolicited"]
